@@ -46,6 +46,16 @@ def run_dollar(tier):
     return kani_runner.run_many(specs, 'units', units)
 
 
+CST = [('cst::attrs_order_k0', 'quick'), ('cst::attrs_order_k1', 'quick'), ('cst::attrs_order_k2', 'quick'), ('cst::attrs_order_k3', 'quick'),
+       ('cst::attrs_order_k4', 'quick'), ('cst::attrs_order_k5', 'quick'), ('cst::attrs_order_k6', 'quick')]
+
+
+def run_cst(tier):
+    units = os.path.join(common.VERIF, 'harness', 'kani_units')
+    specs = [{'name': n, 'cost': 10, 'timeout': 900 if tier == 'quick' else 3600, 'mem_gb': 16} for n, t in CST if t == 'quick' or tier == 'thorough']
+    return kani_runner.run_many(specs, 'units', units)
+
+
 def relevant_failures(prop, r):
     """Failures of harness result r that count for `prop`."""
     out = []
@@ -114,6 +124,8 @@ def run_tok_property(prop, tier, extra_runs=None, level='model_checking'):
     fold(prop, tier, R, run_tok_harnesses(prop, tier), stats, samples, 'tokenizer')
     if prop in ('C08', 'C07'):
         fold(prop, tier, R, run_dollar(tier), stats, samples, 'unit')
+    if prop == 'C12':
+        fold(prop, tier, R, run_cst(tier), stats, samples, 'unit')
     extra_cov = {}
     if extra_runs:
         extra_cov = extra_runs(R, tier)
